@@ -359,8 +359,12 @@ class _AbstractBytes(KeyDataType):
 
     def __call__(self, item):
         if not isinstance(item, bytes) or len(item) != self._length:
+            # The offending item travels as an argument of the exception
+            # (as it does for the numeric types): formatting it into the
+            # message can itself fail, e.g. ValueError for an int beyond
+            # the interpreter's str() digit limit.
             raise TypeError(
-                f"{self._length}-byte array expected, not {item!r}"
+                f"{self._length}-byte array expected", item
             )
         return item
 
